@@ -198,7 +198,7 @@ func (p *c12) aliasRebind(rec *core.Recorder, r *core.Rand) {
 	A := func(v string) string { return "<a:" + v + ":da>" }
 	B := func(v string) string { return "<b:" + v + ":db>" }
 	var want string
-	v := r.Intn(9)
+	v := r.Intn(12)
 	switch v {
 	case 0:
 		srcs["main"] = "{% import 'la' as " + alias + " %}{{ " + alias + ".x(" + a + ") }}|{% import 'lb' as " + alias + " %}{{ " + alias + ".x(" + b + ") }}"
@@ -228,6 +228,25 @@ func (p *c12) aliasRebind(rec *core.Recorder, r *core.Rand) {
 		srcs["main"] = "{% from 'la' import x %}{{ x(" + a + ") }}|{% include 'part' %}|{{ x(" + c + ") }}"
 		srcs["part"] = "{% from 'lb' import x %}{{ x(" + b + ") }}"
 		want = A(a) + "|" + B(b) + "|" + A(c)
+	case 9, 10, 11:
+		// a macro named like a built-in function is still the macro, however it is called
+		bn := []string{"max", "min", "cycle", "range", "length", "date", "merge"}[r.Intn(7)]
+		def := "{% macro " + bn + "(p, q = 'dq') %}<m:{{ p }}:{{ q }}>{% endmacro %}"
+		srcs["lbn"] = def
+		w1 := "<m:" + a + ":dq>"
+		switch r.Intn(5) {
+		case 0:
+			srcs["main"] = def + "{{ " + bn + "(" + a + ") }}"
+		case 1:
+			srcs["main"] = def + "{{ _self." + bn + "(" + a + ") }}"
+		case 2:
+			srcs["main"] = "{% import 'lbn' as " + alias + " %}{{ " + alias + "." + bn + "(" + a + ") }}"
+		case 3:
+			srcs["main"] = "{% from 'lbn' import " + bn + " %}{{ " + bn + "(" + a + ") }}"
+		default:
+			srcs["main"] = "{% from 'lbn' import " + bn + " as zz %}{{ zz(" + a + ") }}"
+		}
+		want = w1
 	default:
 		srcs["main"] = "{% import 'la' as " + alias + " %}{% for i in [1, 2] %}{% include 'part' %}{{ " + alias + ".x(i) }}{% endfor %}"
 		srcs["part"] = "{% import 'lb' as " + alias + " %}{{ " + alias + ".x('p') }}"
